@@ -139,8 +139,12 @@ Fixpoint field_toks (f : jfield) : list tok :=
                end
             ++ default_param d)
   | FMulti ctor kind fields d =>
+      (* MultiFieldMapper: the single schema of a draft-4 {"not": <schema>} is wrapped in a list *)
       call ctor
-           (match items_toks kind (map field_toks fields) with
+           (match (match kind with
+                   | IOne => items_toks IMany (match fields with f0 :: _ => [field_toks f0] | [] => [] end)
+                   | k => items_toks k (map field_toks fields)
+                   end) with
             | Some c => [kv [raw "fields"] c]
             | None => [kv [raw "fields"] [raw "None"]]
             end
@@ -195,11 +199,7 @@ Definition class_toks (c : jclass) : option (list tok) :=
       Some (join [nl]
               ([[raw "class "; TStr (s2p "struct_name") (c_name c); raw "(Structure):"]]
                ++ match c_description c with
-                  | Some d => [[raw "    ";
-                                TStr (s2p "description") (s2p "
-    " ++ d ++ s2p "
-    ");
-                                nl]]
+                  | Some d => [[raw "    "; TStr (s2p "description") d; nl]]
                   | None => []
                   end
                ++ (if c_closed c then [[raw "    _additional_properties = False"]] else [])
@@ -270,6 +270,22 @@ Section Relex.
                        | TRaw _ => []
                        end) l.
 End Relex.
+
+(* the sites of a class statement: those that write a schema string as a string literal, and those
+   that paste it as a NAME *)
+Definition literal_sites : list pystr :=
+  [s2p "description"; s2p "required"; s2p "default"; s2p "default_container"; s2p "pattern"; s2p "enum";
+   s2p "nested_required"].
+Definition name_sites : list pystr :=
+  [s2p "struct_name"; s2p "property_name"; s2p "nested_property_name"; s2p "ref"].
+
+(* a token list whose only constraint is on NAMES: every string is at a literal site (any content) or
+   at a name site (an identifier that is not reserved) *)
+Definition names_only (kw : list pystr) (lits names : list pystr) (l : list tok) : bool :=
+  forallb (fun t => match t with
+                    | TRaw _ => true
+                    | TStr site s => valid_str s && (if str_in site names then is_ident kw s else str_in site lits)
+                    end) l.
 
 (* a schema string is always followed by generator text starting with a delimiter *)
 Definition sep_char (c : N) : bool := negb (ident_char c || (c =? SQ) || (c =? DQ)).
